@@ -24,11 +24,40 @@ Theorem C19_threads : forall K V keqb, (forall a b : K, keqb a b = true -> a = b
 Proof. exact interleaving_ok. Qed.
 Print Assumptions C19_threads.
 
+(* the answers themselves: whatever prefix of honest events ran before it, a lookup that hits returns the pure value *)
+Theorem C19_thread_answers : forall K V keqb, (forall a b : K, keqb a b = true -> a = b) ->
+  forall (pure : K -> V) cap es c, Inv K V pure c -> Forall (honest K V pure) es ->
+  forall pre e post k v, es = pre ++ e :: post -> e = ELookup K V k ->
+  snd (step K V keqb cap (fold_left (fun c e => fst (step K V keqb cap c e)) pre c) e) = Some (Some v) -> v = pure k.
+Proof. exact interleaving_answers. Qed.
+Print Assumptions C19_thread_answers.
+
+(* the cache stays within its capacity over every call history and every interleaving (so the history that a result
+   could depend on is bounded by `maxsize` entries, each of them a pure value) *)
+Theorem C19_capacity : forall K V keqb (pure : K -> V) cap ks,
+  (length (snd (run K V keqb pure cap [] ks)) <= cap)%nat.
+Proof. intros. apply run_bound. cbn. apply Nat.le_0_l. Qed.
+Print Assumptions C19_capacity.
+
+Theorem C19_capacity_threads : forall K V keqb cap es (c : cache K V), (length c <= cap)%nat ->
+  (length (fold_left (fun c e => fst (step K V keqb cap c e)) es c) <= cap)%nat.
+Proof. exact interleaving_bound. Qed.
+Print Assumptions C19_capacity_threads.
+
+(* non-vacuity: a history with a hit, misses and an eviction at capacity 2 *)
+Example C19_history_example :
+  (run nat nat Nat.eqb (fun k => k * k) 2 [] [1; 2; 1; 3; 2] = ([1; 4; 1; 9; 4], [(2, 4); (3, 9)]))%nat.
+Proof. reflexivity. Qed.
+
 (* matcher objects: equal exactly when built from the same fields (so equal objects accept the same names and
    hash equally, the hash being a function of the fields); pickling = rebuilding from the fields *)
 Theorem C19_eq_sound : forall a b, wc_eqb a b = true -> a = b.
 Proof. exact wc_eqb_eq. Qed.
 Print Assumptions C19_eq_sound.
+
+Theorem C19_eq_iff : forall a b, wc_eqb a b = true <-> a = b.
+Proof. exact wc_eqb_iff. Qed.
+Print Assumptions C19_eq_iff.
 
 Theorem C19_pickle_roundtrip : forall m, rebuild (fields m) = m.
 Proof. exact rebuild_fields. Qed.
